@@ -778,6 +778,12 @@ theorem defineNs_idem (st : NsState) (path : List Seg) : defineNs (defineNs st p
   rw [mem_foldl_addNew]
   exact Or.inr ha
 
+theorem defineEnum_eq_of_find (st : NsState) (nsName : List Char) (name : Seg) (values : List Seg) (e : EnumInfo)
+    (h : (defineNs st (splitDots nsName)).findEnum (splitDots nsName) name = some e) :
+    defineEnum st nsName name values = defineNs st (splitDots nsName) := by
+  unfold defineEnum
+  simp only [h]
+
 /-! ### 6. columns -/
 
 theorem finishCol_plain_fields (s : ChainSt) (out : ColOut) (h : finishCol s .plain = .ok out) :
